@@ -334,6 +334,9 @@ class Interp:
             if not path:
                 return val
             i = path[0]
+            if isinstance(v, Adt) and i >= len(v.fields) and v.ty.startswith('{'):
+                # coroutine state: saved locals live in variant fields beyond the captured upvars
+                v = Adt(v.ty, v.variant, tuple(v.fields) + (None,) * (i + 1 - len(v.fields)))
             return v.with_field(i, upd(v.fields[i], path[1:]))
         cell.val = upd(cell.val, path)
 
@@ -1041,6 +1044,20 @@ class Interp:
                     if m:
                         self.closure_bodies.setdefault(m.group(1), b)
         b = self.closure_bodies.get(span)
+        if b is None and span.startswith('{coroutine@'):
+            # `async fn`: the coroutine is created in the fn itself and its poll body is `<fn>::{closure#0}`, whose
+            # receiver type is printed as `{async fn body of ..}` instead of the span
+            if not getattr(self, '_coroutine_map', None):
+                self._coroutine_map = {}
+                for name, body in self.bodies.items():
+                    if body.ret.startswith('{async fn body of') and (name + '::{closure#0}') in self.bodies:
+                        for stmts, term in body.raw_blocks.values():
+                            for st in stmts:
+                                k = st.find('{coroutine@')
+                                if k >= 0:
+                                    j = mir.match_bracket(st, k)
+                                    self._coroutine_map[mir.normalize_span(st[k:j + 1])] = self.bodies[name + '::{closure#0}']
+            b = self._coroutine_map.get(span)
         if b is None:
             raise Inconclusive('no body for closure ' + span)
         return b
